@@ -178,6 +178,9 @@ def _integrate_over(expr: ast.AST, generators: Sequence[ast.comprehension]) -> a
                 upper = lower + n_steps
                 sym_expr = sym_expr.subs(integrand, step * integrand)
 
+            if (upper - lower).is_number and upper < lower:
+                return core.parse("0")  # Nothing is summed over an empty range
+
             sym_expr = sympy.Sum(sym_expr, (integrand, lower, upper))
 
         elif isinstance(comprehension.iter, (ast.Tuple, ast.List, ast.Set)):
@@ -237,6 +240,10 @@ def simplify_math_iterators(source: str) -> str:
                 continue
             if len(arg.args) == 3 and not core.match_template(arg.args[2], ast.Constant(value=1)):
                 continue  # There is no closed form for a range with a step here
+            start, end = map(_integer_literal_value, _get_range_start_end(arg)[:2])
+            if start is not None and end is not None and start >= end:
+                yield node, ast.Constant(value=0, kind=None)  # An empty range
+                continue
             yield from closed_form(node, _sum_range(arg))
 
         elif core.match_template(arg, basic_collection_template):
